@@ -43,6 +43,19 @@ let init () =
     | [bpp; alt; w; h; len] -> (
         match mk bpp alt w h len "0" with Datatypes.Coq_inl _ -> "ok" | Datatypes.Coq_inr n -> "err " ^ z_out n)
     | _ -> "BAD-ARGS");
+  register "img_new_const" (function
+    | [bpp; alt; w; h; len; seed] -> (
+        match
+          raw_new_const (z_in bpp) (alt = "1") (data (int_of_string seed) (int_of_string len)) { sw = z_in w; sh = z_in h }
+        with
+        | None -> "panic"
+        | Some img ->
+            let s = img.ir_size in
+            "ok " ^ z_out s.sw ^ " " ^ z_out s.sh ^ " "
+            ^ opt_out z_out (raw_pixel img { px = z_of_int 0; py = z_of_int 0 })
+            ^ " "
+            ^ opt_out z_out (raw_pixel img { px = Geometry.(z_in w |> fun v -> BinInt.Z.sub v (z_of_int 1)); py = BinInt.Z.sub (z_in h) (z_of_int 1) }))
+    | _ -> "BAD-ARGS");
   register "img_pixels" (function
     | [bpp; alt; w; h; len; seed] -> (
         match mk bpp alt w h len seed with
